@@ -6,7 +6,7 @@
   The cache `c` is ARBITRARY in every lookup theorem (in particular every state reachable by inserts, invalidation,
   reload marks, GC rounds, epoch-not-match handling), PD is an arbitrary list of regions unless stated otherwise.
 -/
-import ClientGoVerif.Proofs.Region
+import ClientGoVerif.Proofs.RegionReach
 namespace CGV.Props.C09
 open CGV CGV.Region
 
@@ -87,70 +87,55 @@ example : ∃ c' ls, locateKeyRange 20 (locateKey Cache.empty pd2 [97]).1 pd2 [9
 /-- sorted, pairwise disjoint request ranges with start < end; only the last one may be unbounded -/
 abbrev ValidRanges := ValidRangesP
 
-/-- full statement for BatchLocateKeyRanges: the locations cover every requested range (any cache state, any PD).
-    Not proved in this generality; see `batch_lookup_gap_free_partial`.  (Before /repo commit 5462de8 it was FALSE:
-    the merger dropped a cached region with an unbounded end key — finding S8; `s8_regression` below is that
-    scenario on the repaired merger.) -/
+/-- full statement for BatchLocateKeyRanges: for every index sorted by start key (every reachable cache is, see
+    `reachable_sorted`), every PD behaviour and every sorted list of request ranges, the returned locations cover every
+    requested range.  Proved below up to a bound on the number of request ranges (`batch_lookup_gap_free_partial`). -/
 def batch_lookup_gap_free : Prop :=
   ∀ (fuel : Nat) (c c' : Cache) (pd : PD) (ranges : List KeyRange) (ls : List Region),
-    ValidRanges ranges →
+    Sorted c.sorted → ValidRanges ranges →
     batchLocateKeyRanges fuel c pd ranges = (c', .ok ls) → ∀ kr ∈ ranges, Covers ls kr.start kr.end_
 
 /-- BatchLocateKeyRanges (merger as of /repo 5462de8): whenever it answers, the locations cover every requested range
-    (unbounded ends and the last region included), for every cache state and EVERY PD behaviour, provided
-    (1) the cached regions gathered by step 1 have non-decreasing start keys (true when the index holds no overlapping
-        stale entry), and
-    (2) step 1 leaves at most one uncached range to be loaded from PD (any number of PD rounds for it).
-    This contains the S8 shape (cached head, one uncached hole, cached unbounded tail, several request ranges).
-    Several uncached ranges at once (multi-range gap check + rangesAfterKey over several ranges) are covered by the
-    differential only. -/
+    (unbounded ends and the last region included) — for every index that is sorted by start key (overlapping stale
+    entries, invalidated and need-reload entries allowed), EVERY PD behaviour (only the code's own gap check is used),
+    any number of uncached holes and PD rounds, provided the call has at most 16 * defaultRegionsPerBatch request
+    ranges (the size of one PD request).
+    What remains for the full statement: with more ranges than that, step 2 sends only a prefix of the uncached
+    ranges per round and `rangesAfterKey` trusts the end key of the last returned region for the ranges it did not
+    send; a PD answer containing a region beyond the ranges it was asked for could then skip an unsent range.  That
+    needs an assumption on PD's answers (only regions intersecting the request) and is not proved. -/
 theorem batch_lookup_gap_free_partial (fuel : Nat) (c c' : Cache) (pd : PD) (ranges : List KeyRange)
-    (ls : List Region) (hv : ValidRanges ranges)
-    (hs : StartsSorted ((batchStep1 fuel c ranges).cached.map (·.r)))
-    (hu : (batchStep1 fuel c ranges).uncached.length ≤ 1)
+    (ls : List Region) (hs : Sorted c.sorted) (hv : ValidRanges ranges)
+    (hn : ranges.length ≤ 16 * limitPerBatch)
     (h : batchLocateKeyRanges fuel c pd ranges = (c', .ok ls)) :
     ∀ kr ∈ ranges, Covers ls kr.start kr.end_ := by
   unfold batchLocateKeyRanges at h
   have hA := (batchStep1_spec (fuel := fuel) (c := c) (st := ⟨none, [], []⟩) hv
     (by intro l hl; cases hl)).2
+  have hS := batchStep1_si (fuel := fuel) hs (st := ⟨none, [], []⟩) hv
+    (by intro kr _; exact ⟨by simp [StartsSorted], by intro x hx; cases hx⟩)
+    (by simp [StartsSorted]) (by intro l hl; cases hl) (by simp [ValidRangesP]) (by intro u hu; cases hu)
   change ∀ kr ∈ ranges, ServedBy (batchStep1 fuel c ranges).cached (batchStep1 fuel c ranges).uncached kr at hA
+  change StartsSorted ((batchStep1 fuel c ranges).cached.map (·.r)) ∧
+    ValidRangesP (batchStep1 fuel c ranges).uncached ∧
+    (batchStep1 fuel c ranges).uncached.length ≤ 0 + ranges.length at hS
   simp only at h
-  generalize batchStep1 fuel c ranges = st at h hs hu hA
-  have hinit := mergerInv_init hs
-  -- in both cases: an invariant-carrying merger whose merged part covers the uncached range (if any)
-  have key : ∃ m', ls = m'.build ∧ MergerInv (st.cached.map (·.r)) m' ∧
-      ∀ u ∈ st.uncached, Covers m'.merged u.start u.end_ := by
-    cases hU : st.uncached with
-    | nil =>
-      rw [hU, batchStep2_nil] at h
+  generalize batchStep1 fuel c ranges = st at h hA hS
+  cases hb : batchStep2 fuel c pd st.uncached ⟨none, st.cached.map (·.r), []⟩ with
+  | mk c1 res =>
+    rw [hb] at h
+    cases res with
+    | error x => simp at h
+    | ok m' =>
       simp only [Prod.mk.injEq, Except.ok.injEq] at h
-      exact ⟨_, h.2.symm, hinit, by intro u hu'; cases hu'⟩
-    | cons u rest =>
-      cases rest with
-      | cons u2 rest2 => rw [hU] at hu; simp at hu
-      | nil =>
-        rw [hU] at h
-        cases hb : batchStep2 fuel c pd [u] ⟨none, st.cached.map (·.r), []⟩ with
-        | mk c1 res =>
-          rw [hb] at h
-          cases res with
-          | error x => simp at h
-          | ok m' =>
-            simp only [Prod.mk.injEq, Except.ok.injEq] at h
-            have hb' : batchStep2 fuel c pd [⟨u.start, u.end_⟩] ⟨none, st.cached.map (·.r), []⟩ = (c1, .ok m') := hb
-            have := batchStep2_single hb' hinit (covUpTo_init u.start u.end_)
-            refine ⟨m', h.2.symm, this.1, ?_⟩
-            intro u' hu'
-            simp only [List.mem_singleton] at hu'
-            subst hu'
-            exact this.2
-  obtain ⟨m', rfl, hinv, hcovU⟩ := key
-  obtain ⟨hb1, hb2⟩ := build_covers hinv
-  intro kr hkr k hk1 hk2
-  rcases hA kr hkr k hk1 hk2 with ⟨ce, hce, hcc⟩ | ⟨u, hu', hu1, hu2⟩
-  · exact hb2 ce.r (List.mem_map.mpr ⟨ce, hce, rfl⟩) k hcc
-  · obtain ⟨l, hl, hlc⟩ := hcovU u hu' k hu1 hu2
-    exact ⟨l, hb1 l hl, hlc⟩
+      obtain ⟨_, rfl⟩ := h
+      obtain ⟨hinv, _, hcovU⟩ := batchStep2_spec hb (mergerInv_init hS.1) hS.2.1 (by omega)
+      obtain ⟨hb1, hb2⟩ := build_covers hinv
+      intro kr hkr k hk1 hk2
+      rcases hA kr hkr k hk1 hk2 with ⟨ce, hce, hcc⟩ | ⟨u, hu', hu1, hu2⟩
+      · exact hb2 ce.r (List.mem_map.mpr ⟨ce, hce, rfl⟩) k hcc
+      · obtain ⟨l, hl, hlc⟩ := hcovU u hu' k hu1 hu2
+        exact ⟨l, hb1 l hl, hlc⟩
 
 def pd3 : PD :=
   [⟨⟨1, [], some [103], 1, 0⟩, 1, [1, 2, 3]⟩, ⟨⟨2, [103], some [116], 2, 0⟩, 1, [1, 2, 3]⟩, ⟨⟨3, [116], none, 1, 0⟩, 1, [1, 2, 3]⟩]
@@ -165,12 +150,11 @@ theorem s8_regression :
       .ok [⟨1, [], some [103], 1, 0⟩, ⟨3, [116], none, 1, 0⟩] := rfl
 
 /-- the hypotheses of `batch_lookup_gap_free_partial` hold in the S8 scenario -/
-example : ValidRanges [⟨[97], [98]⟩, ⟨[117], []⟩] ∧
-    StartsSorted ((batchStep1 20 warmLast [⟨[97], [98]⟩, ⟨[117], []⟩]).cached.map (·.r)) ∧
-    (batchStep1 20 warmLast [⟨[97], [98]⟩, ⟨[117], []⟩]).uncached.length ≤ 1 := by
-  refine ⟨⟨by decide, by decide, Or.inl rfl⟩, ?_, by decide⟩
-  have : (batchStep1 20 warmLast [⟨[97], [98]⟩, ⟨[117], []⟩]).cached.map (·.r) = [⟨3, [116], none, 1, 0⟩] := rfl
-  rw [this]; simp [StartsSorted]
+example : Sorted warmLast.sorted ∧ ValidRanges [⟨[97], [98]⟩, ⟨[117], []⟩] ∧
+    ([⟨[97], [98]⟩, ⟨[117], []⟩] : List KeyRange).length ≤ 16 * limitPerBatch := by
+  refine ⟨?_, ⟨by decide, by decide, Or.inl rfl⟩, by decide⟩
+  have : warmLast.sorted = [⟨⟨3, [116], none, 1, 0⟩, true, false, 1, [1, 2, 3]⟩] := rfl
+  rw [this]; simp [Sorted]
 
 /-! ## no regression -/
 
@@ -235,5 +219,112 @@ theorem grouping_partition (c c' : Cache) (pd : PD) (keys : List Bytes) (g : Lis
 theorem index_sorted (c c' : Cache) (n : Entry) (ok : Bool) (h : insertRegionToCache c n = (c', ok))
     (hs : Sorted c.sorted) : Sorted c'.sorted :=
   insert_sorted h hs
+
+/-- ListRegionIDsInKeyRange: whenever it answers, the regions it walked through cover every key of [startKey, endKey]
+    (end inclusive) — every cache state, every PD behaviour -/
+theorem list_region_ids_cover (fuel : Nat) (c c' : Cache) (pd : PD) (startKey endKey : Bytes) (ls : List Region)
+    (h : listRegionIDs fuel c pd startKey endKey [] = (c', .ok ls)) :
+    ∀ k, Bytes.le startKey k = true → Bytes.le k endKey = true → ∃ l ∈ ls, l.contains k = true :=
+  listRegionIDs_spec h (covUpTo_init startKey [])
+
+/-! ## every operation sequence: the reachable caches -/
+
+/-- after ANY sequence of API operations (lookups of all kinds answered by arbitrary, changing or stale PD states,
+    invalidation, need-reload marks, leader updates, epoch-not-match handling, GC rounds) the cache is well-formed:
+    the index is strictly sorted by start key and latestVersions is keyed consistently -/
+theorem reachable_cache_wf (ops : List Op) : CacheWF (ops.foldl applyOp Cache.empty) :=
+  reachable_wf (reachable_applyOps ops Reachable.empty)
+
+/-- non-overlap is NOT an invariant of the code and is therefore not assumed anywhere: a wider stale entry that starts
+    earlier survives the insert of a newer region inside it -/
+theorem overlap_reachable : ∃ c : Cache, Reachable c ∧ ∃ a ∈ c.sorted, ∃ b ∈ c.sorted, a ≠ b ∧
+    a.r.contains [110] = true ∧ b.r.contains [110] = true := by
+  let a : Entry := ⟨⟨1, [97], some [122], 1, 0⟩, true, false, 1, [1]⟩
+  let b : Entry := ⟨⟨2, [109], some [122], 2, 0⟩, true, false, 1, [1]⟩
+  refine ⟨(insertRegionToCache (insertRegionToCache Cache.empty a).1 b).1,
+    Reachable.insert b (Reachable.insert a Reachable.empty), a, ?_, b, ?_, ?_, ?_, ?_⟩
+  · decide
+  · decide
+  · decide
+  · decide
+  · decide
+
+/-- BatchLocateKeyRanges after any operation sequence (see `batch_lookup_gap_free_partial` for what is assumed) -/
+theorem batch_lookup_gap_free_reachable (ops : List Op) (fuel : Nat) (c' : Cache) (pd : PD) (ranges : List KeyRange)
+    (ls : List Region) (hv : ValidRanges ranges) (hn : ranges.length ≤ 16 * limitPerBatch)
+    (h : batchLocateKeyRanges fuel (ops.foldl applyOp Cache.empty) pd ranges = (c', .ok ls)) :
+    ∀ kr ∈ ranges, Covers ls kr.start kr.end_ :=
+  batch_lookup_gap_free_partial fuel _ c' pd ranges ls (reachable_cache_wf ops).1 hv hn h
+
+/-- LocateRegionByID after any operation sequence: the location has the id that was asked for -/
+theorem lookup_by_id (ops : List Op) (c' : Cache) (pd : PD) (id : Nat) (r : Region)
+    (h : locateRegionByID (ops.foldl applyOp Cache.empty) pd id = (c', .ok r)) : r.id = id :=
+  locateRegionByID_id (reachable_cache_wf ops).2 h
+
+/-- a location answered by LocateKey is a VALID entry of the index or a fresh PD answer (any cache) -/
+theorem lookup_valid_or_fresh (c c' : Cache) (pd : PD) (key : Bytes) (r : Region)
+    (h : locateKey c pd key = (c', .ok r)) :
+    (∃ e ∈ c.sorted, e.valid = true ∧ e.r = r) ∨ (∃ lr, loadRegion pd key false = .ok lr ∧ lr.r = r) := by
+  unfold locateKey at h
+  cases hf : findRegionByKey c pd key false with
+  | mk c1 res =>
+    rw [hf] at h
+    cases res with
+    | error x => simp [Except.map] at h
+    | ok e =>
+      simp only [Except.map, Prod.mk.injEq, Except.ok.injEq] at h
+      rcases findRegionByKey_origin hf with ⟨hm, hv⟩ | hl
+      · exact Or.inl ⟨e, hm, hv, h.2⟩
+      · exact Or.inr ⟨e, hl, h.2⟩
+
+/-- a stale region is never returned after invalidate: if LocateKey on a cache in which VerID `v` was invalidated
+    answers a region with that VerID, the answer is a fresh PD answer, not the invalidated entry -/
+theorem no_stale_after_invalidate (c c' : Cache) (v : VerID) (pd : PD) (key : Bytes) (r : Region)
+    (h : locateKey (c.invalidate v) pd key = (c', .ok r)) (hv : r.verID = v) :
+    ∃ lr, loadRegion pd key false = .ok lr ∧ lr.r = r := by
+  rcases lookup_valid_or_fresh _ _ _ _ _ h with ⟨e, hm, hval, rfl⟩ | hl
+  · have := invalidate_marks c v e hm hv
+    rw [this] at hval; cases hval
+  · exact hl
+
+/-- the multi-region lookups only take valid entries without the need-reload flag from the cache -/
+theorem range_lookups_use_valid_entries (c : Cache) :
+    (∀ k b e, tryFindRegionByKey c k b = some e → e ∈ c.sorted ∧ e.valid = true ∧ e.reload = false) ∧
+    (∀ s e limit, ∀ x ∈ scanRegionsFromCache c s e limit, x.valid = true ∧ x.reload = false) :=
+  ⟨fun _ _ _ h => tryFind_valid h, fun s e limit => scan_valid c s e limit⟩
+
+/-- a successful insert evicts exactly the entries whose start key lies in the new region's range: the new index is
+    the new entry plus the old entries starting outside that range -/
+theorem insert_evicts_exactly (c c' : Cache) (n : Entry) (hwf : n.r.wf)
+    (h : insertRegionToCache c n = (c', true)) (e : Entry) :
+    e ∈ c'.sorted ↔ e = n ∨ (e ∈ c.sorted ∧ inRangeStart n.r e = false) := by
+  rcases insert_spec h with ⟨hf, _⟩ | ⟨_, heq, _⟩
+  · cases hf
+  · rw [heq]
+    constructor
+    · intro he
+      rcases mem_insertSorted he with he | he
+      · exact Or.inl he
+      · simp only [List.mem_filter, Bool.not_eq_eq_eq_not, Bool.not_true] at he
+        exact Or.inr he
+    · rintro (rfl | ⟨he, hin⟩)
+      · exact self_mem_insertSorted _ _
+      · apply mem_insertSorted_of_mem
+        · simp [List.mem_filter, he, hin]
+        · intro hs
+          have : inRangeStart n.r e = true := by
+            unfold inRangeStart
+            rw [hs, le_refl]
+            unfold Region.wf at hwf
+            unfold Region.endKey
+            cases hend : n.r.end_ with
+            | none => simp
+            | some x => simp [hend] at hwf; simp [hwf]
+          rw [this] at hin; cases hin
+
+/-- non-vacuity: a successful insert with a well-formed region -/
+example : (⟨⟨2, [103], some [116], 2, 0⟩, true, false, 1, [1]⟩ : Entry).r.wf ∧
+    (insertRegionToCache Cache.empty ⟨⟨2, [103], some [116], 2, 0⟩, true, false, 1, [1]⟩).2 = true := by
+  refine ⟨by simp [Region.wf]; decide, rfl⟩
 
 end CGV.Props.C09
